@@ -4,23 +4,44 @@ import itertools
 import treeutil as tu
 
 ID = "C01"
-GEN_DEPENDS = ["PyBits"]
+GEN_DEPENDS = ["PyBits", "C01Kernels"]
 RULE = ("random rose trees 1-12 leaves (40 in thorough) built through the Node API over namespaces with extra members, removed "
         "members (holes, incl. bit 0) and shuffled taxon->bit assignment, unary nodes and polytomies, occasionally taxon-less leaves, "
         "three rooting states x encode flags x entry points (encode_/update_bipartitions, encode_/update_splits, mutable, "
         "suppress_storage); pairs (re-drawn: children shuffled, unifurcations inserted, unrooted re-seeded by an independent graph "
         "re-rooting; one leaf regrafted; different shape) each encoded under independent flags; rebuilds from shuffled encodings "
         "and from arbitrary split lists; predicate triples on raw integers (negative and > 2^64 included) and on Bipartition objects "
-        "compiled in both rooting states and taken from real encodings; query-edit-query histories. Every case is a self-contained "
-        "description (tokens, namespace bits, flags) that the judge re-reads, so every failure replays from its own record. "
-        "Non-trivial = tree with >= 4 leaves and >= 1 internal edge (encode/pairs/rebuild) or masks that are neither 0 nor full (predicates)")
+        "compiled in both rooting states and taken from real encodings; Bipartition objects compiled from RAW leafsets reaching outside "
+        "the tree leafset (op bip: stored leafset, split, is_nested_within x2, normalize x2, compatible, trivial, leafset-nested) and "
+        "mutable bipartitions changed and recompiled (compile_bipartition); indexes_of_set_bits x flags; namespace masks up to 70 "
+        "accessions with holes; query-edit-query histories; HISTORIES of explicit encodings (any flags), node-API edits and "
+        "compatibility queries with both values of is_bipartitions_updated, answer and tree compared after every step (op hist); "
+        "MAINTAINED encodings (op maintained): encode under any flags incl. mutable, optionally touch the edge maps, then 1-4 operations "
+        "that offer update_bipartitions=True (suppress_unifurcations, prune/retain taxa (objects, labels), prune_subtree, "
+        "prune_leaves_without_taxa, reseed_at, reroot_at_node/_edge/_midpoint, to_outgroup_position, collapse_unweighted_edges, "
+        "collapse_basal_bifurcation, resolve_polytomies, randomly_reorient, node/edge edits + update_bipartitions) on trees with "
+        "frequent unifurcations; after EVERY operation the stored encoding (same objects as the edges', one per edge, no leftovers), "
+        "per-edge leafset/split/leafset_taxa and both edge maps are judged by a from-scratch walk and the model is asked for `encode` of "
+        "the tree as it stands; finally the tree rebuilt from the stored encoding (shuffled) must have the topology. Every case is a "
+        "self-contained description (tokens, namespace bits, flags, steps) that the judge re-reads, so every failure replays from its "
+        "own record. Non-trivial = tree with >= 4 leaves and >= 1 internal edge (encode/pairs/rebuild/hist/maintained with >= 1 applied "
+        "operation) or masks that are neither 0 nor full (predicates)")
 MODELLED_NOT_VERIFIED = [
-    "C01: encode_bipartitions / from_split_bitmasks are hand-modelled (lean/DendroModel/Model/{TreeOps,C01,Hier}.lean) and tied "
-    "to the code by the correspondence on generated trees; the four integer functions are regenerated from source (Gen/PyBits.lean)",
-    "C01: the mutable Bipartition object protocol (is_mutable, hashing by split mask) and the edge-map caches are not modelled",
+    "C01: encode_bipartitions / from_split_bitmasks are hand-modelled (lean/DendroModel/Model/{TreeOps,C01,C01Ext,Hier}.lean) and tied "
+    "to the code by the correspondence on generated trees; the four integer functions are regenerated from source (Gen/PyBits.lean) and "
+    "so are the closed-form kernels inside the anchored methods (Gen/C01Kernels.lean: nesting tests, normalize conventions, "
+    "compile_split dispatch, collapse/suppress conditions, OR accumulation, head filter and the four insertion tests of "
+    "from_split_bitmasks, re-encode condition, namespace masks, the set_bit_index_iter loop) - each proved equal to the model's "
+    "hand-written definition (theorems kernel_*); the control flow AROUND the kernels (loops over edges/children, object plumbing) is "
+    "hand-modelled",
+    "C01: the mutable Bipartition object protocol (is_mutable assertions, hashing by split mask) is exercised by the oracle only; the "
+    "edge-map caches and the restructuring operations of op `maintained` are not modelled (the model is asked for `encode` of the "
+    "tree each of them leaves behind); `ordination_in_mask` of set_bit_index_iter is modelled and compared, not proved",
 ]
 EXPLANATION = ("Theorems over all masks/trees, about the driver's own definitions. (a,b) encode_pairs_spec: every pair of `encode` is a node's "
-               "leafset mask and its rooted / LSB-normalised split. (c) rooted: encode_rooted_iff_topology (equal split sets <-> same topology up "
+               "leafset mask and its rooted / LSB-normalised split; encode_one_pair_per_node: as a multiset, exactly one pair per node of the "
+               "tree the encoder leaves (multiplicity); indexes_of_set_bits_spec/_mem: the set-bit enumeration behind leafset_taxa (a while "
+               "loop, modelled with fuel) returns exactly the set bits, increasing. (c) rooted: encode_rooted_iff_topology (equal split sets <-> same topology up "
                "to child order and unifurcations, any flags). (c) unrooted, every seed position: encode_unrooted_iff_topology (equal split sets "
                "of `encode` <-> Iso of the canonical re-seedings `canonU` at the lowest leaf, >= 3 taxa; canonU is executable, printed by the driver "
                "and compared with the oracle's graph canonical form), backed by Bridge.canonU_spec (every well-formed tree reaches the canonical "
@@ -32,15 +53,23 @@ EXPLANATION = ("Theorems over all masks/trees, about the driver's own definition
                "ucanon_eq_of_iso: the order-free string of op ucanon is invariant too (its injectivity, and that of Hier.render, stay trusted). (d) rebuild_rooted_topology and "
                "rebuild_unrooted_topology (the tree `build` makes of `encode`'s split masks in any order/multiplicity is the encoded topology, has "
                "no unifurcation; both ASSUME members = the tree's taxa, all-bits mask may be larger; the unrooted head filter's complement-on-bit-0 "
-               "path provably never fires on an encoding), rebuild_rooted_extras (rooted, namespace with extra members: Iso to the encoded tree "
-               "plus the absent members under a new root), rebuild_unrooted_extras_partial (unrooted, extra members: Good, NoUnif, and the exact clade "
-               "set = star + every non-empty split mask of the encoding, incl. L\\{k}; the explicit Iso to a reference tree is not spelled out), "
+               "path provably never fires on an encoding), rebuild_unrooted_small (< 3 taxa: every split is dropped by the head filter, the result is "
+               "the star over ANY member list, Iso to the tree when members = taxa), rebuild_rooted_extras (rooted, namespace with extra members: Iso to the encoded tree "
+               "plus the absent members under a new root), rebuild_unrooted_extras (unrooted, any member list containing the taxa, extras or not: Iso to the reference tree "
+               "(lowest leaf k, absent members, ONE child = canonU k of the encoded tree with leaf k taken out of its seed) - the absent members sit on the lowest "
+               "leaf's edge; the former _partial is now rebuild_unrooted_extras_clades: Good, NoUnif, exact clade set), "
                "build_rooted_clades. (e) is_trivial_sets, is_compatible_sets, "
                "is_compatible_four_quadrants, is_compatible_unrooted_raw (two raw unrooted leafsets, normalised then tested <-> four-quadrant), "
                "is_nested_sets, tree_compatible_rooted_sets / _unrooted_sets (Tree.is_compatible_with_bipartition with default flags = "
-               "compatibility with the bipartition of EVERY edge). Underneath: refinement of the generated integer functions, mask_spec, "
-               "split_spec, norm_sets, ins_spec/build_spec. Not proved: trees with taxon-less leaves (not Good), multiplicity of the encoding list - correspondence + "
-               "oracle only.")
+               "compatibility with the bipartition of EVERY edge). Histories (hstep/hrun, the driver's op hist): history_default_query_is_fresh "
+               "(after ANY history of encodings, edits and queries a default query re-encodes and answers for the tree as it stands), "
+               "history_default_query_rooted_sets / _unrooted_sets (that answer as the set condition over every edge), "
+               "history_updated_query_uses_stored (is_bipartitions_updated=True answers from the stored pairs, whatever the tree is now), "
+               "history_edit_and_encode. Tie A, second part: kernel_* (13 theorems) prove every kernel regenerated from inside the anchored "
+               "methods equal to the model's definition. Underneath: refinement of the generated integer functions, mask_spec, "
+               "split_spec, norm_sets, ins_spec/build_spec. Not proved: trees with taxon-less leaves (not Good); idempotence of encode (an "
+               "updated query right after an encoding is judged by the oracle only); the restructuring operations that maintain an encoding "
+               "(oracle: stored encoding judged after every operation) - correspondence + oracle only.")
 
 
 # ------------------------------------------------------------------ independent oracles
@@ -484,6 +513,12 @@ def check_encoding_exact(ctx, tree, case, stored=True, maps=True):
                 b.split_bitmask, want, L, tree.is_rooted, ws), case)
             return
         per_edge.append((want, ws))
+        # clause (a) observed through the taxa themselves: Bipartition.leafset_taxa -> TaxonNamespace.bitmask_taxa_list
+        below = sorted(tu.bit_of(tree.taxon_namespace, lf.taxon) for lf in tu.walk(nd) if not lf._child_nodes and lf.taxon is not None)
+        listed = [tu.bit_of(tree.taxon_namespace, t) for t in b.leafset_taxa(tree.taxon_namespace)]
+        if listed != below:
+            ctx.fail("encoding", "leafset_taxa lists the taxa with bits %s, the leaves below the edge carry %s" % (listed, below), case)
+            return
     if not stored:
         return
     enc = tree.bipartition_encoding
@@ -766,9 +801,360 @@ def judge_stale(ctx, dendropy, case, pending):
             return
 
 
+def judge_bip(ctx, dendropy, case, pending):
+    """Bipartition objects compiled from RAW leafsets (possibly reaching outside the tree leafset): stored leafset, split,
+    is_nested_within (both flags), normalize (both conventions), is_compatible_with, is_trivial, is_leafset_nested_within.
+    Oracle (non-negative masks, non-empty tree leafset F; A, B = the raw leafsets cut down to F):
+      leafset = A; split = A (rooted) / A or F-A, whichever avoids the lowest taxon of F (unrooted);
+      normalize lsb0 = that same side of the raw mask, lsb1 = the other side; compatible / trivial / leafset-nested as in
+      judge_pred; is_nested_within on rooted bipartitions = A subset of B (on unrooted ones it compares split masks - the statement
+      does not say what that should mean, so it is compared with the model only)."""
+    from dendropy.datamodel.treemodel._bipartition import Bipartition
+    a, b, fill, rooted = case["a"], case["b"], case["fill"], bool(case["rooted"])
+    x = Bipartition(leafset_bitmask=a, tree_leafset_bitmask=fill, is_rooted=rooted)
+    y = Bipartition(leafset_bitmask=b, tree_leafset_bitmask=fill, is_rooted=rooted)
+    vals = (x.leafset_bitmask, x.split_bitmask, y.leafset_bitmask, y.split_bitmask, int(bool(x.is_nested_within(y))),
+            int(bool(x.is_nested_within(y, is_other_masked_for_tree_leafset=True))), x.normalize(a), x.normalize(a, "lsb1"),
+            int(bool(x.is_compatible_with(y))), int(bool(x.is_trivial())), int(bool(x.is_leafset_nested_within(y))))
+    ctx.case(["bip", rooted, a, b, fill], (a & fill) not in (0, fill) and (b & fill) not in (0, fill), sample=case, kind="bip")
+    pending.append(("bip %d %d %d %d" % (rooted, a, b, fill), case, " ".join(map(str, vals))))
+    if not (fill > 0 and a >= 0 and b >= 0):
+        return
+    F = bits_of(fill)
+    A, B = bits_of(a) & F, bits_of(b) & F
+    low = min(F)
+
+    def mask(S):
+        return sum(1 << i for i in S)
+
+    def split(S):
+        return mask(S) if rooted else mask(F - S if low in S else S)
+    want = (mask(A), split(A), mask(B), split(B))
+    if vals[:4] != want:
+        ctx.fail("predicate", "Bipartition(leafset=%d / %d, tree leafset=%d, rooted=%s) compiled to leafset/split %s, expected %s" % (
+            a, b, fill, rooted, vals[:4], want), case)
+        return
+    n0 = mask(F - A if low in A else A)
+    n1 = mask(A if low in A else F - A)
+    if (vals[6], vals[7]) != (n0, n1):
+        ctx.fail("predicate", "Bipartition.normalize(%d) on tree leafset %d = %d (lsb0) / %d (lsb1), expected %d / %d" % (
+            a, fill, vals[6], vals[7], n0, n1), case)
+    wc = nested_or_disjoint(A, B) if rooted else quadrants_empty(A, B, F)
+    if bool(vals[8]) != wc:
+        ctx.fail("predicate", "is_compatible_with = %s for %s bipartitions with leafsets %s / %s of %s; the set definition says %s" % (
+            bool(vals[8]), "rooted" if rooted else "unrooted", sorted(A), sorted(B), sorted(F), wc), case)
+    wt = len(A) <= 1 or len(F - A) <= 1
+    if bool(vals[9]) != wt:
+        ctx.fail("predicate", "Bipartition.is_trivial() = %s for sides of %d and %d taxa" % (bool(vals[9]), len(A), len(F - A)), case)
+    if bool(vals[10]) != (A <= B):
+        ctx.fail("predicate", "is_leafset_nested_within = %s for %s within %s" % (bool(vals[10]), sorted(A), sorted(B)), case)
+    if rooted and (bool(vals[4]) != (A <= B) or bool(vals[5]) != (A <= B)):
+        ctx.fail("predicate", "is_nested_within (rooted) = %s/%s for leafsets %s within %s" % (bool(vals[4]), bool(vals[5]), sorted(A), sorted(B)), case)
+
+
+def judge_recompile(ctx, dendropy, case, pending):
+    """a MUTABLE bipartition whose leafset is changed and which is then recompiled through the public zero-argument
+    `compile_bipartition()`: leafset and split must again be those of the new leafset"""
+    from dendropy.datamodel.treemodel._bipartition import Bipartition
+    a, b, fill, rooted = case["a"], case["b"], case["fill"], bool(case["rooted"])
+    z = Bipartition(leafset_bitmask=a, tree_leafset_bitmask=fill, is_rooted=rooted, is_mutable=True)
+    z.leafset_bitmask = b
+    z.compile_bipartition()
+    ref = Bipartition(leafset_bitmask=b, tree_leafset_bitmask=fill, is_rooted=rooted)
+    ctx.case(["recompile", rooted, a, b, fill], (b & fill) not in (0, fill), kind="recompile")
+    F = bits_of(fill)
+    Bs = bits_of(b) & F
+    ws = sum(1 << i for i in (Bs if (rooted or min(F) not in Bs) else F - Bs))
+    if (z.leafset_bitmask, z.split_bitmask) != (sum(1 << i for i in Bs), ws):
+        ctx.fail("predicate", "recompiled mutable bipartition has leafset/split %s/%s, the new leafset %d on tree leafset %d gives %d/%d" % (
+            z.leafset_bitmask, z.split_bitmask, b, fill, sum(1 << i for i in Bs), ws), case)
+    pending.append(("bip %d %d %d %d" % (rooted, b, b, fill), dict(case, op="bip", a=b),
+                    " ".join(map(str, (z.leafset_bitmask, z.split_bitmask, ref.leafset_bitmask, ref.split_bitmask,
+                                       int(bool(z.is_nested_within(ref))), int(bool(z.is_nested_within(ref, True))), z.normalize(b), z.normalize(b, "lsb1"),
+                                       int(bool(z.is_compatible_with(ref))), int(bool(z.is_trivial())), int(bool(z.is_leafset_nested_within(ref))))))))
+
+
+def judge_bits(ctx, dendropy, case, pending):
+    """bitprocessing.indexes_of_set_bits: the indices of the set bits of s & fill, increasing; one_based shifts them by one;
+    ordination_in_mask reports the rank of the bit among the bits of fill instead"""
+    from dendropy.utility import bitprocessing
+    s, fill, ob, om = case["s"], case["fill"], bool(case["one_based"]), bool(case["ord"])
+    got = bitprocessing.indexes_of_set_bits(s, fill, ob, om)
+    ctx.case(["bits", s, fill, ob, om], s > 0 and (s & fill) != 0, kind="bits")
+    pending.append(("bits %d %d %d %d" % (s, fill, ob, om), case, ",".join(map(str, got))))
+    if s < 0 or (fill < 0 and fill != -1):
+        return
+    S = bits_of(s) if fill == -1 else bits_of(s) & bits_of(fill)
+    if om and fill != -1:
+        Fl = sorted(bits_of(fill))
+        want = [Fl.index(i) + ob for i in sorted(S)]
+    elif om:
+        want = [i + ob for i in sorted(S)]
+    else:
+        want = [i + ob for i in sorted(S)]
+    if got != want:
+        ctx.fail("bitfunction", "indexes_of_set_bits(%d, %d, one_based=%s, ordination_in_mask=%s) = %s, the set bits are %s" % (
+            s, fill, ob, om, got, want), case)
+
+
+def judge_nsmask(ctx, dendropy, case, pending):
+    """TaxonNamespace.all_taxa_bitmask / taxon_bitmask: every accession index handed out so far; bit = accession index"""
+    tns = namespace_for(dendropy, case["ns"])
+    members = list(tns)
+    t = members[case["i"] % len(members)]
+    idx = tns.accession_index(t)
+    got = "%d %d" % (tns.all_taxa_bitmask(), tns.taxon_bitmask(t))
+    ctx.case(["nsmask", case["ns"]["bits"], case["ns"]["count"], idx], len(members) >= 2, kind="nsmask")
+    pending.append(("nsmask %d %d" % (case["ns"]["count"], idx), case, got))
+    if tns.all_taxa_bitmask() != sum(1 << j for j in range(case["ns"]["count"])) or tns.taxon_bitmask(t) != (1 << idx):
+        ctx.fail("encoding", "namespace masks: all_taxa_bitmask %d, taxon_bitmask %d for accession index %d of %d" % (
+            tns.all_taxa_bitmask(), tns.taxon_bitmask(t), idx, case["ns"]["count"]), case)
+    if tns.taxa_bitmask(taxa=members) != sum(1 << tns.accession_index(m) for m in members):
+        ctx.fail("encoding", "taxa_bitmask of all members is not the OR of their bits", case)
+
+
+def judge_hist(ctx, dendropy, case, pending):
+    """a history of explicit encodings, edits through the node API and compatibility queries (both values of
+    is_bipartitions_updated) on ONE tree object; after every step the answer and the tree as it stands are compared with the
+    model's stored-encoding state machine (`hrun`).  Oracle: a query that the API promises to be fresh - default flag, or
+    is_bipartitions_updated=True while nothing was edited since the last encoding - must answer by the set definition for the
+    tree as it stands (only judged while both trees are over the same taxa)."""
+    t1, _ = tree_for_case(dendropy, case)
+    t2, _ = tree_for_case(dendropy, case, key="tree2", tns=t1.taxon_namespace)
+    queries = list(t2.encode_bipartitions())
+    F2 = tu.leafset_masks(t2)[id(t2.seed_node)]
+    toks, ids = tu.encode_tree(t1, with_labels=False)
+    line = ["hist", case["rooted"]] + list(toks)
+    outs = []
+    current = False      # is the stored encoding an encoding of the tree as it stands?
+    rooted = bool(t1.is_rooted)
+    nq = 0
+    for st in case["steps"]:
+        if st[0] == "c":
+            t1.encode_bipartitions(suppress_unifurcations=bool(st[1]), collapse_unrooted_basal_bifurcation=bool(st[2]))
+            current = True
+            line += ["c", str(int(st[1])), str(int(st[2]))]
+            outs.append("c@" + tu.render_tree(t1, ids))
+        elif st[0] == "e":
+            before = tu.render_tree(t1, ids)
+            apply_edit(dendropy, t1, st[1:])
+            if tu.render_tree(t1, ids) != before:      # (a node unknown to `ids` prints as *, so any change shows)
+                current = False
+            toks, ids = tu.encode_tree(t1, with_labels=False)
+            line += ["e"] + list(toks)
+            outs.append("e")
+        else:
+            b2 = queries[st[2] % len(queries)]
+            upd = bool(st[1])
+            m1 = tu.leafset_masks(t1)
+            L1 = m1[id(t1.seed_node)]
+            sides1 = [bits_of(m1[id(nd)]) for nd in tu.walk(t1.seed_node)]
+            got = bool(t1.is_compatible_with_bipartition(b2, is_bipartitions_updated=upd))
+            fresh = (not upd) or current
+            if not upd:
+                current = True
+            nq += 1
+            if fresh and L1 == F2 and L1:
+                F = bits_of(L1)
+                B = bits_of(b2.leafset_bitmask) & F
+                want = all((nested_or_disjoint(A, B) if rooted else quadrants_empty(A, B, F)) for A in sides1)
+                if got != want:
+                    ctx.fail("predicate", "history %s: Tree.is_compatible_with_bipartition(is_bipartitions_updated=%s) = %s for leafset %s; "
+                             "the set definition on the tree as it stands says %s" % (case["steps"], upd, got, sorted(B), want), case)
+                    return
+            line += ["q", str(int(upd)), str(b2.split_bitmask)]
+            outs.append(("1" if got else "0") + "@" + tu.render_tree(t1, ids))
+    ctx.case(["hist", case["tree"], case["tree2"], case["rooted"], case["steps"]], nontrivial_tree(t1) and nq >= 2, sample=case, kind="hist")
+    pending.append((" ".join(line), case, " ; ".join(outs)))
+
+
+MAINT_OPS = ("suppress", "prune_taxa", "retain_taxa", "prune_labels", "retain_labels", "prune_subtree", "prune_taxonless", "reseed",
+             "reroot_node", "reroot_edge", "midpoint", "outgroup", "collapse_unweighted", "collapse_basal", "resolve", "reorient",
+             "node_edit", "edge_collapse")
+
+
+def apply_maint_op(dendropy, tree, op):
+    """one structure-changing operation that offers to keep the stored encoding up to date (`update_bipartitions=True`), or a
+    node/edge-level edit followed by `tree.update_bipartitions()`.  Arguments are pre-order node indices / taxon bits / seeds
+    recorded in the case; an operation that does not apply to the tree as it stands is a no-op.  Returns False if skipped."""
+    import random as _r
+    name, i, j, seed, sup = op
+    nodes = tu.walk(tree.seed_node)
+    x = nodes[i % len(nodes)]
+    y = nodes[j % len(nodes)]
+    tns = tree.taxon_namespace
+    leaves = [nd for nd in nodes if not nd._child_nodes]
+    taxa = [nd.taxon for nd in leaves if nd.taxon is not None]
+    rr = _r.Random(seed)
+    kw = dict(update_bipartitions=True, suppress_unifurcations=bool(sup))
+    if name == "suppress":
+        tree.suppress_unifurcations(update_bipartitions=True)
+    elif name in ("prune_taxa", "retain_taxa", "prune_labels", "retain_labels"):
+        if len(taxa) < 3:
+            return False
+        k = rr.randint(1, len(taxa) - 2)
+        sel = rr.sample(taxa, k)
+        if name == "prune_taxa":
+            tree.prune_taxa(sel, **kw)
+        elif name == "retain_taxa":
+            tree.retain_taxa(sel if len(sel) >= 2 else taxa[:2], **kw)
+        elif name == "prune_labels":
+            tree.prune_taxa_with_labels([t.label for t in sel], **kw)
+        else:
+            tree.retain_taxa_with_labels([t.label for t in (sel if len(sel) >= 2 else taxa[:2])], **kw)
+    elif name == "prune_subtree":
+        if x._parent_node is None or len(leaves) < 3:
+            return False
+        below = [nd for nd in tu.walk(x) if not nd._child_nodes]
+        if len(below) >= len(leaves) - 1:
+            return False
+        tree.prune_subtree(x, **kw)
+    elif name == "prune_taxonless":
+        cand = [nd for nd in leaves if nd._parent_node is not None and len(nd._parent_node._child_nodes) >= 2]
+        if len(leaves) < 3 or not cand:
+            return False
+        rr.choice(cand).taxon = None
+        tree.prune_leaves_without_taxa(**kw)
+    elif name == "reseed":
+        if x._parent_node is None or not x._child_nodes:
+            return False
+        tree.reseed_at(x, **kw)
+    elif name == "reroot_node":
+        if x._parent_node is None or not x._child_nodes:
+            return False
+        tree.reroot_at_node(x, **kw)
+    elif name == "reroot_edge":
+        if x._parent_node is None:
+            return False
+        tree.reroot_at_edge(x.edge, **kw)
+    elif name == "midpoint":
+        if len(leaves) < 3 or any(nd.edge.length is None or nd.edge.length <= 0 for nd in nodes if nd._parent_node is not None):
+            return False
+        tree.reroot_at_midpoint(**kw)
+    elif name == "outgroup":
+        if x._parent_node is None or len(leaves) < 3:
+            return False
+        tree.to_outgroup_position(x, **kw)
+    elif name == "collapse_unweighted":
+        tree.collapse_unweighted_edges(update_bipartitions=True)
+    elif name == "collapse_basal":
+        tree.collapse_basal_bifurcation(set_as_unrooted_tree=False)
+        tree.update_bipartitions(suppress_unifurcations=bool(sup))
+    elif name == "resolve":
+        tree.resolve_polytomies(update_bipartitions=True, rng=rr)
+    elif name == "reorient":
+        if len(leaves) < 3:
+            return False
+        tree.randomly_reorient(rng=rr, update_bipartitions=True)
+    elif name == "node_edit":
+        apply_edit(dendropy, tree, [EDIT_KINDS[seed % len(EDIT_KINDS)], i % len(nodes), j % len(nodes)])
+        tree.update_bipartitions(suppress_unifurcations=bool(sup))
+    elif name == "edge_collapse":
+        if x._parent_node is None or not x._child_nodes:
+            return False
+        x.edge.collapse()
+        tree.update_bipartitions(suppress_unifurcations=bool(sup))
+    else:
+        raise ValueError("unknown maintained-encoding operation %r" % (name,))
+    return True
+
+
+def check_maintained(ctx, tree, case, step, mutable):
+    """the STORED encoding after an operation that promised to keep it up to date, against a from-scratch walk of the tree as
+    it stands: every edge carries the bipartition of its own leaves; `bipartition_encoding` is exactly the edges' bipartitions
+    (the same objects, one per edge, no leftover of a removed edge, no duplicate); the edge maps describe exactly these edges"""
+    before = len(ctx.failures)
+    check_encoding_exact(ctx, tree, case, stored=True, maps=not mutable)
+    if len(ctx.failures) > before:
+        for f in ctx.failures[before:]:
+            if isinstance(f, dict) and "what" in f:
+                f["what"] = "after step %s: %s" % (step, f["what"])
+        return False
+    enc = tree.bipartition_encoding
+    edge_bips = [nd.edge.bipartition for nd in tu.walk(tree.seed_node)]
+    if sorted(map(id, enc)) != sorted(map(id, edge_bips)):
+        ctx.fail("encoding", "after step %s: bipartition_encoding holds %d bipartitions of which %d are not (or no longer) the bipartition object "
+                 "of an edge of the tree; %d edges of the tree are missing from it" % (
+                     step, len(enc), len(set(map(id, enc)) - set(map(id, edge_bips))), len(set(map(id, edge_bips)) - set(map(id, enc)))), case)
+        return False
+    if not mutable and tu.leafset_masks(tree)[id(tree.seed_node)]:
+        edges = set(id(nd.edge) for nd in tu.walk(tree.seed_node))
+        if set(id(e) for e in tree.bipartition_edge_map.values()) - edges or len(tree.bipartition_edge_map) != len(set(b.split_bitmask for b in enc)):
+            ctx.fail("encoding", "after step %s: bipartition_edge_map has entries for edges that are not in the tree / misses splits" % (step,), case)
+            return False
+    return True
+
+
+def judge_maintained(ctx, dendropy, case, pending):
+    """MAINTAINED encodings: encode under any flags -> operations that offer update_bipartitions=True -> the stored encoding,
+    the per-edge bipartitions and the edge maps are judged after EVERY operation; the model is asked for `encode` of the tree as
+    it stands; at the end the tree rebuilt from the stored encoding (shuffled) must have the topology"""
+    import random as _r
+    import common
+    tree, _ = tree_for_case(dendropy, case)
+    tns = tree.taxon_namespace
+    sup, col, mutable = case["sup"], case["col"], case.get("mutable", False)
+    tree.encode_bipartitions(suppress_unifurcations=sup, collapse_unrooted_basal_bifurcation=col, is_bipartitions_mutable=mutable)
+    if case.get("touch_maps") and not mutable and tu.leafset_masks(tree)[id(tree.seed_node)]:
+        _ = tree.split_bitmask_edge_map, tree.bipartition_edge_map
+    nt = nontrivial_tree(tree)
+    done = 0
+    for k, op in enumerate(case["ops"]):
+        try:
+            applied = apply_maint_op(dendropy, tree, op)
+        except Exception as e:
+            if not common.is_library_exception(e):
+                raise
+            if op[0] in ("suppress", "collapse_unweighted", "collapse_basal", "resolve", "edge_collapse", "node_edit"):
+                raise       # nothing but the upkeep of the encoding can fail in these: the judge wrapper reports it
+            # the restructuring itself failing is the business of the property that owns it (C03/C07/C08), not of the encoding
+            ctx.count("maintained_op_raised_%s" % op[0])
+            if len(ctx.notes) < 20:
+                ctx.note("maintained: %s raised %s: %s" % (op[0], type(e).__name__, str(e)[:120]))
+            break
+        if not applied:
+            continue
+        done += 1
+        if not tree.bipartition_encoding:
+            ctx.fail("encoding", "after step %d (%s with update_bipartitions): no stored encoding" % (k, op[0]), case)
+            return
+        if tu.arborescence_problems(tree):
+            ctx.count("maintained_op_left_malformed_tree_%s" % op[0])
+            break
+        if not check_maintained(ctx, tree, case, "%d (%s)" % (k, op[0]), mutable):
+            return
+        toks, ids = tu.encode_tree(tree, with_labels=False)
+        got = " ".join("%d:%d" % p for p in sorted((b.leafset_bitmask, b.split_bitmask) for b in tree.bipartition_encoding)) \
+            + " | " + tu.render_tree(tree, ids)
+        pending.append(("encode %s 0 0 %s" % (ROOT[tree.is_rooted], " ".join(toks)),
+                        {"op": "encode", "tree": toks, "rooted": ROOT[tree.is_rooted], "ns": case["ns"], "sup": False, "col": False,
+                         "variant": 0, "after_maintained": case["ops"][:k + 1]}, got))
+    ctx.case(["maintained", case["tree"], case["rooted"], sup, col, mutable, case["ops"]], nt and done >= 1, sample=case,
+             kind="maintained" if done else "maintained-noop")
+    if not done or not tree.bipartition_encoding:
+        return
+    # clause (d) on the stored encoding
+    L = tu.leafset_masks(tree)[id(tree.seed_node)]
+    if not L or any(nd.taxon is None for nd in tu.walk(tree.seed_node) if not nd._child_nodes):
+        return
+    enc = list(tree.bipartition_encoding)
+    _r.Random(case.get("perm_seed", 0)).shuffle(enc)
+    extras = sorted(tns.accession_index(t) for t in tns if not (L >> tns.accession_index(t)) & 1)
+    canon = canon_rooted if tree.is_rooted else canon_unrooted
+    wants = [canon(tree, extras)]
+    if extras and not tree.is_rooted:
+        wants.append(canon_unrooted(tree, extras, at_node=True))
+    rebuilt = dendropy.Tree.from_bipartition_encoding(enc, taxon_namespace=tns, is_rooted=tree.is_rooted)
+    got = canon(rebuilt)
+    if got not in wants:
+        ctx.fail("rebuild", "tree rebuilt from the STORED encoding after %s has topology %s, the tree as it stands is %s" % (
+            [o[0] for o in case["ops"]], got, wants[0]), case)
+
+
 JUDGES = {"pyint": judge_pyint, "pred": judge_pred, "encode": judge_encode, "reencode": judge_reencode, "pair": judge_pair,
           "rebuild": judge_rebuild, "build": judge_build, "treepreds": judge_treepreds, "stalepred": judge_stale,
-          "compat": judge_compat, "ucanon": judge_ucanon, "ucanon2": judge_ucanon2, "lsb": judge_bitfunction, "normalize": judge_bitfunction}
+          "compat": judge_compat, "ucanon": judge_ucanon, "ucanon2": judge_ucanon2, "lsb": judge_bitfunction, "normalize": judge_bitfunction,
+          "bip": judge_bip, "recompile": judge_recompile, "bits": judge_bits, "nsmask": judge_nsmask, "hist": judge_hist, "maintained": judge_maintained}
 
 
 def judge(ctx, dendropy, case, pending):
@@ -961,8 +1347,105 @@ def gen_stale(ctx, dendropy):
     return dict(case, op="stalepred", edit=edit)
 
 
+def gen_bip(ctx, dendropy):
+    rng = ctx.rng
+    nb = rng.randint(1, 9)
+    fill = rng.getrandbits(nb) | (1 << rng.randrange(nb))
+    if rng.random() < 0.5:
+        fill = (1 << nb) - 1
+    wide = nb + (2 if rng.random() < 0.3 else 0)       # raw leafsets may reach outside the tree leafset
+    a, b = rng.getrandbits(wide), rng.getrandbits(wide)
+    r = rng.random()
+    if r < 0.2:
+        b = (fill & ~a) | (a & rng.getrandbits(nb))
+    elif r < 0.3:
+        b = a | rng.getrandbits(nb)
+    elif r < 0.34:
+        a, b, fill = rng.randint(-40, 40), rng.randint(-40, 40), rng.choice([-3, -1, 5, 12, 1 << 70])
+    op = "recompile" if rng.random() < 0.15 and fill > 0 and a >= 0 and b >= 0 else "bip"
+    return {"op": op, "rooted": rng.random() < 0.5, "a": a, "b": b, "fill": fill}
+
+
+def gen_bits(ctx, dendropy):
+    rng = ctx.rng
+    r = rng.random()
+    s = rng.getrandbits(rng.choice([4, 9, 20, 70, 130])) if r < 0.9 else rng.randint(-20, 3)
+    fill = -1 if rng.random() < 0.4 else rng.getrandbits(rng.choice([4, 9, 20, 70]))
+    return {"op": "bits", "s": s, "fill": fill, "one_based": rng.random() < 0.3, "ord": rng.random() < 0.3}
+
+
+def gen_nsmask(ctx, dendropy):
+    rng = ctx.rng
+    total = rng.randint(1, 70)
+    nholes = rng.randint(0, min(3, total - 1)) if rng.random() < 0.5 else 0
+    tns = tu.make_namespace(dendropy, 0, labels=["t%d" % i for i in range(total)], holes=sorted(rng.sample(range(total), nholes)))
+    if rng.random() < 0.3:
+        rng.shuffle(tns._taxa)
+    return {"op": "nsmask", "ns": namespace_desc(tns), "i": rng.randrange(1000)}
+
+
+def gen_hist(ctx, dendropy):
+    rng = ctx.rng
+    case = gen_treepreds(ctx, dendropy)
+    t1, _ = tree_for_case(dendropy, case)
+    steps = []
+    for _ in range(rng.randint(2, 7)):
+        r = rng.random()
+        if r < 0.5:
+            steps.append(["q", rng.random() < 0.45, rng.randrange(64)])
+        elif r < 0.65:
+            steps.append(["c", rng.random() < 0.7, rng.random() < 0.7])
+        else:
+            n = len(tu.walk(t1.seed_node))
+            nodes = tu.walk(t1.seed_node)
+            kind = rng.choice(EDIT_KINDS)
+            i, j = rng.randrange(n), rng.randrange(n)
+            lvs = [k for k, nd in enumerate(nodes) if not nd._child_nodes]
+            internal = [k for k, nd in enumerate(nodes) if nd._child_nodes and nd._parent_node is not None]
+            big = [k for k, nd in enumerate(nodes) if len(nd._child_nodes) >= 3]
+            if kind == "swap" and len(lvs) >= 2:
+                i, j = rng.sample(lvs, 2)
+            elif kind == "collapse" and internal:
+                i = rng.choice(internal)
+            elif kind == "group" and big:
+                i = rng.choice(big)
+            elif kind in ("remove", "regraft") and lvs:
+                i = rng.choice(lvs)
+                if internal:
+                    j = rng.choice(internal)
+            steps.append(["e", kind, i, j])
+            apply_edit(dendropy, t1, [kind, i, j])      # so that later indices are drawn for the tree as it will stand
+    return dict(case, op="hist", steps=steps)
+
+
+def gen_maintained(ctx, dendropy):
+    rng = ctx.rng
+    tree = gen_tree(dendropy, rng, ctx.pick(10, 25), hole_rate=0.2)
+    # unifurcations matter here (an encoding made with suppress_unifurcations=False keeps their edges): make them frequent
+    if rng.random() < 0.6:
+        nodes = [nd for nd in tu.walk(tree.seed_node) if nd._parent_node is not None]
+        for nd in rng.sample(nodes, min(len(nodes), rng.randint(1, 3))):
+            p = nd._parent_node
+            pos = p._child_nodes.index(nd)
+            u = dendropy.Node()
+            u.edge.length = tu.dyadic(rng, none_rate=0.3)
+            p.remove_child(nd)
+            u.add_child(nd)
+            p.insert_child(pos, u)
+    if rng.random() < 0.04:
+        strip_some_taxa(rng, tree)
+    n = len(tu.walk(tree.seed_node))
+    ops = []
+    for _ in range(rng.choice([1, 1, 1, 2, 2, 3, 4])):
+        name = rng.choice(MAINT_OPS) if rng.random() < 0.8 else rng.choice(["suppress", "reseed", "prune_taxa", "node_edit", "collapse_basal"])
+        ops.append([name, rng.randrange(2 * n), rng.randrange(2 * n), rng.randrange(10 ** 6), rng.random() < 0.75])
+    return tree_case(tree, "maintained", sup=rng.random() < 0.5, col=rng.random() < 0.6, mutable=rng.random() < 0.15,
+                     touch_maps=rng.random() < 0.5, ops=ops, perm_seed=rng.randint(0, 10 ** 9))
+
+
 GENS = {"pyint": gen_pyint, "pred": gen_pred, "encode": gen_encode, "pair": gen_pair, "rebuild": gen_rebuild, "build": gen_build,
-        "treepreds": gen_treepreds, "stalepred": gen_stale, "reencode": gen_reencode}
+        "treepreds": gen_treepreds, "stalepred": gen_stale, "reencode": gen_reencode,
+        "bip": gen_bip, "bits": gen_bits, "nsmask": gen_nsmask, "hist": gen_hist, "maintained": gen_maintained}
 
 
 def flush(ctx, pending):
@@ -984,8 +1467,8 @@ def flush(ctx, pending):
     del pending[:]
 
 
-OPS = [("pyint", 0.12), ("pred", 0.14), ("encode", 0.26), ("pair", 0.12), ("rebuild", 0.1), ("build", 0.08), ("treepreds", 0.07),
-       ("stalepred", 0.05), ("reencode", 0.06)]
+OPS = [("pyint", 0.09), ("pred", 0.1), ("encode", 0.22), ("pair", 0.1), ("rebuild", 0.09), ("build", 0.07), ("treepreds", 0.06),
+       ("stalepred", 0.03), ("reencode", 0.05), ("bip", 0.08), ("bits", 0.04), ("nsmask", 0.02), ("hist", 0.05), ("maintained", 0.14)]
 
 
 def run(ctx):
@@ -1054,12 +1537,18 @@ def replay(ctx, rec):
 
 
 def search(ctx, broken):
-    """obligations broke: exhaustive small domain of the integer functions and predicates against their set-theoretic meaning"""
+    """obligations broke (a generated file could not be regenerated, a refinement / `kernel_*` bridge theorem no longer builds) or the
+    model disagrees: look for a concrete failing input on the real code in the mechanisms the regenerated definitions come from -
+    exhaustive small domains of the integer functions, predicates and Bipartition objects against their set-theoretic meaning, the
+    set-bit enumeration, the namespace masks, and a batch of encodings / rebuilds / histories / maintained encodings judged by the
+    from-scratch oracles (all randomness from ctx.rng)"""
     dendropy = __import__("dendropy")
     pending = []
     for fill in range(1, 32):
         judge(ctx, dendropy, {"op": "lsb", "n": fill}, pending)
         for a in range(32):
+            judge(ctx, dendropy, {"op": "bits", "s": a, "fill": fill, "one_based": bool(a & 1), "ord": bool(a & 2)}, pending)
+            judge(ctx, dendropy, {"op": "bits", "s": a * fill, "fill": -1, "one_based": False, "ord": False}, pending)
             if a & ~fill:
                 continue
             judge(ctx, dendropy, {"op": "normalize", "a": a, "fill": fill}, pending)
@@ -1069,4 +1558,16 @@ def search(ctx, broken):
                 judge_pred(ctx, dendropy, {"op": "pred", "a": a, "b": b, "fill": fill}, pending, count=False)
         if ctx.failures:
             break
+    for fill in range(1, 16):
+        for a in range(32):
+            for b in range(0, 32, 3):
+                for rooted in (False, True):
+                    judge(ctx, dendropy, {"op": "bip", "rooted": rooted, "a": a, "b": b, "fill": fill}, pending)
+            judge(ctx, dendropy, {"op": "recompile", "rooted": bool(a & 1), "a": a, "b": (a * 7 + fill) % 32, "fill": fill}, pending)
+    for op, n in (("nsmask", 60), ("encode", 400), ("rebuild", 300), ("pair", 200), ("treepreds", 120), ("hist", 200),
+                  ("stalepred", 100), ("maintained", 300)):
+        for _ in range(n):
+            if len(ctx.failures) > 40:
+                break
+            judge(ctx, dendropy, GENS[op](ctx, dendropy), pending)
     del pending[:]
